@@ -665,7 +665,8 @@ def parse_case_row(row):
     """-> dict(lay, rcs, text, sem (list|None), model [status, tuples...], end_state)"""
     if row[0] == "decode-error":
         raise core.InternalError("c07_case: the model could not decode a case")
-    lay, rcs, text = row[0] == "1", [x for x in row[1].split(",") if x], row[2]
+    lay, rcs, text = row[0] == "1", [x for x in row[1].split(",") if x and x != "PARTIAL"], row[2]
+    partial = "PARTIAL" in row[1].split(",")
     if row[3] == "undef":
         sem, k = None, 4
     else:
@@ -675,7 +676,8 @@ def parse_case_row(row):
     status, end_state = row[k], row[k + 1]
     rest = row[k + 2:]
     model = [status] + [tuple(rest[i:i + 5]) for i in range(0, len(rest), 5)]
-    return {"lay": lay, "rcs": rcs, "text": text, "sem": sem, "model": model, "end_state": end_state}
+    return {"lay": lay, "rcs": rcs, "partial": partial, "text": text, "sem": sem, "model": model,
+            "end_state": end_state}
 
 
 def parse_read_row(row):
@@ -779,6 +781,7 @@ def run(tier, seed, replay=None):
     dist = {}
     in_dom = 0
     in_dom_ok = 0
+    in_partial = 0
     unmodelled = 0
     nontrivial = set()
     fam_count = {}
@@ -801,6 +804,12 @@ def run(tier, seed, replay=None):
         if not m["rcs"]:
             in_dom += 1
             in_dom_ok += ok
+        if m["partial"]:
+            in_partial += 1
+            if not ok:      # the proved theorem C07_partial covers this case: the model cannot agree with this
+                spec_fail.append((i, "yielded triples differ from the document's triples inside C07_partial_dom "
+                                     "(the domain of the proved end-to-end theorem)"))
+                continue
         if len(texts[i].split("\n")) > len([x for x in d if x[0] == "D"]) + 1:
             nontrivial.add(texts[i])
         if not ok:
@@ -848,7 +857,7 @@ def run(tier, seed, replay=None):
         print("CORRFAIL", len(corr_fail))
         for ix in corr_fail[:8]:
             print("    ", json.dumps(payload_dbg(ix, valid, texts, impl, mrows, texts_extra, extra_impl, extra_model))[:900])
-        print("known_hits", known_hits, "in_dom", in_dom, in_dom_ok, "unmodelled", unmodelled)
+        print("known_hits", known_hits, "in_dom", in_dom, in_dom_ok, "partial", in_partial, "unmodelled", unmodelled)
         print("rej", {"%s:%s" % k: v for k, v in sorted(rej_stats.items())})
 
     # rdflib validates the generator (sample of the valid stream)
@@ -943,6 +952,7 @@ def run(tier, seed, replay=None):
         "outcome_distribution": dist,
         "in_C07_dom": in_dom,
         "in_C07_dom_and_correct": in_dom_ok,
+        "in_C07_partial_dom": in_partial,
         "known_finding_hits": known_hits,
         "reject_stream": {"%s:%s" % k: v for k, v in sorted(rej_stats.items())},
         "model_unmodelled_outcomes": unmodelled,
